@@ -170,18 +170,15 @@ static inline VmTrap trap_error(VmState *vm, VmResult err, const char *fmt, ...)
 #ifdef NANOLANG_VERIF
 long long vm_verif_fuel = -1;
 void (*vm_verif_step_cb)(VmState *vm, const DecodedInstruction *instr, uint32_t instr_start) = NULL;
-static int vm_verif_env_read = 0;
+/* read the budget once, before any thread exists */
+__attribute__((constructor)) static void vm_verif_read_env(void) {
+    const char *vf = getenv("NANOLANG_VERIF_FUEL");
+    if (vf && *vf) vm_verif_fuel = atoll(vf);
+}
 #endif
 
 VmTrap vm_core_execute(VmState *vm) {
     const uint8_t *code = vm->module->code;
-#ifdef NANOLANG_VERIF
-    if (!vm_verif_env_read) {
-        vm_verif_env_read = 1;
-        const char *vf = getenv("NANOLANG_VERIF_FUEL");
-        if (vf && *vf) vm_verif_fuel = atoll(vf);
-    }
-#endif
 
     /* Derive code_end from current function */
     const NvmFunctionEntry *cur_fn = &vm->module->functions[vm->current_fn];
